@@ -42,6 +42,21 @@ def run(ctx):
              "the remembered configuration is read before _exit_states (which re-records history) runs" if not late else
              "_resolve_history_target is reachable after _exit_states: the exit phase has just re-recorded the parent's history, so a history "
              "transition taken from inside the parent restores the child it is leaving instead of the remembered one", g.nodes[late[0]].ast if late else ex.node)
+    # ---- R10 each restored state is entered once: the combined entry path holds no state twice -----------
+    from sa.util import canon_atom
+    for v in VIEWS:
+        ex = roles(ctx, v).executor
+        apps = [x for x in own_nodes(ex.node) if isinstance(x, ast.Call) and isinstance(x.func, ast.Attribute) and x.func.attr == "append"
+                and len(enclosing_loops(ex, x)) >= 2 and any("_get_path_to_state" in norm(l.iter) for l in enclosing_loops(ex, x) if isinstance(l, ast.For))]
+        if not c.expect("R10", f"appends to the combined history entry path in {ex.short}", len(apps), 1, ex,
+                        f"{ex.short} no longer builds one combined entry path for the restored states"):
+            continue
+        for x in apps:
+            lst, item = norm(x.func.value), norm(x.args[0]) if x.args else "?"
+            ok = any(canon_atom(a, pol) == ("in", item, lst, False) for a, pol in guards_at(ex, x))
+            c.ob("R10", ok, ex, "combined-path-has-no-duplicates", "a step is appended to the combined path only if it is not in it yet" if ok else
+                 f"'{norm(x)}' is not guarded by '{item} not in {lst}': ancestors shared by several restored leaves are entered once per leaf "
+                 f"(their entry actions run twice, their timers and services are armed twice)", x)
     # ---- R7 shallow / deep selection structure -------------------------------------------------
     rh = p.method("BaseInterpreter", "_resolve_history_target")
     deep_tests = [x for x in own_nodes(rh.node) if isinstance(x, ast.If) and "history" in norm(x.test) and "'deep'" in norm(x.test)]
